@@ -27,7 +27,7 @@ LEVEL_TEXT = ('Lean 4 theorems (Mathlib matrices), for every basis matrix B with
               'leaves a smaller sum of squares; permuting the requested modes permutes the coefficients. The executable model (basis from the '
               'C11 mode model, Cramer solution of the normal equations, compose, remove — wired through the REGENERATED call-site argument projections) is proved equal to these abstract objects; IsUnit det(BtB) is proved equivalent to linear independence of the sampled modes over ordered fields; remove leaves samples outside the mask untouched; a '
               'coefficient vector for zernike_compose with the coefficients at the (regenerated) positions of the requested modes composes '
-              'B·c, and two concrete Zernike bases over Q (one ray; a 2x2 array with cosine, sine and radial modes) satisfy the independence hypothesis. PARTIAL: that np.linalg.pinv(basis)·opd is the '
+              'B·c; the two einsum contractions are REGENERATED from their subscript strings (Gen.fitContract / Gen.removeContract: the model\'s B·c is the generated contraction, and the generated fit contraction applied to the transposed pseudo-inverse is the abstract fit), the sample numbering of opd.ravel() and basis.reshape(k,-1) is regenerated with its order and proved to agree (C order on both sides); and two concrete Zernike bases over Q (one ray; a 2x2 array with cosine, sine and radial modes) satisfy the independence hypothesis. PARTIAL: that np.linalg.pinv(basis)·opd is the '
               'normal-equation solution, and that the code builds exactly this basis, are checked by correspondence only.')
 LEVEL_NOTE = ('Trusted: Lean kernel and Mathlib; np.linalg.pinv(basis) = (BᵀB)⁻¹Bᵀ for full column rank and np.einsum contractions (compared on '
               'every call with the Lean model run at Float; basis/compose values to 1e-8, fit/remove to 1e-10 x max(1, cond²) — the bound on the Float model\'s own rounding — while '
@@ -36,10 +36,10 @@ LEVEL_NOTE = ('Trusted: Lean kernel and Mathlib; np.linalg.pinv(basis) = (BᵀB)
 TECHNIQUE = 'Lean 4 proof over Mathlib matrices + executable Lean model of basis/fit/compose/remove with differential correspondence on call histories'
 GEN = ['ZernikeCalls', 'ZernikeR']
 OPS = ['C11', 'C12']
-RULE = ('cases = call histories of 6-9 compose/fit/remove calls in one process on one mask (circular / hexagonal / segmented / off-centre / '
+RULE = ('extra cases: a mode requested twice (observed: remove unchanged, coefficient split) and OPDs with NaN / +-inf outside the mask (known finding KF-C12-nonfinite-outside-mask); cases = call histories of 6-9 compose/fit/remove calls in one process on one mask (circular / hexagonal / segmented / off-centre / '
         'irregular weighted, sizes 9..22 even and odd; all built by the harness, not by the library): same modes with default then caller-supplied (shifted, rotated) coordinates, both '
         'normalisations, reversed/permuted mode orders, repeated calls; non-empty mode subsets of Noll 1..36 of size 1..6 in random order (never '
-        'exactly 1..k), half of the histories with sets made of PAIRS OF ADJACENT indices (all 16 cosine/sine partner pairs (2,3)…(35,36) in rotation, every one in every quick run, and arbitrary (j, j+1); in the thorough tier and the failing-input search also pairs from Noll 37..66), given as list, ndarray or scalar; '
+        'exactly 1..k), half of the histories with sets made of PAIRS OF ADJACENT indices (all 16 cosine/sine partner pairs (2,3)…(35,36) in rotation, every one in every quick run, and arbitrary (j, j+1); one history in ten with pairs from Noll 37..66), given as list, ndarray or scalar; '
         'the caller\'s coordinate / mask arrays are created ONCE per history and handed to every call (inputs must come back untouched); the conditioning of every mode set is computed by an independent numpy reference, never by the library; OPDs with and without content outside the mask; inputs C-ordered, Fortran-ordered, '
         'transposed views, strided views, float32 OPDs, bool/int/float32 masks; zernike_basis observed directly (cube and vectorised); medium-conditioned '
         'histories (cond 1e2..1e4, with residual) compared with the model; ill-conditioned full-rank histories (cond up to 1e9, zero residual) judged by the '
@@ -49,10 +49,12 @@ TRUSTED = ['np.linalg.pinv returns (BᵀB)⁻¹Bᵀ for a full-column-rank B (co
 UNPROVEN = ['zernike_fit returns the normal-equation (least-squares) solution: rests on the pinv contract — correspondence only',
             'zernike_basis / zernike_compose evaluate the C11 mode model at the requested Noll indices and coordinates: the argument bindings and the '
             'position -> Noll index map are regenerated from the source (Gen/ZernikeCalls), the values are compared on every call — no theorem about the Python code itself']
-ASSUMPTIONS = ['modes linearly independent on the mask (IsUnit det(BᵀB)); numerically: the property is judged on the real functions for cond(B) <= 1e9 with '
+ASSUMPTIONS = ['the OPD is finite at every sample, also outside the mask (NaN / inf outside the mask turn every coefficient into NaN: known finding KF-C12-nonfinite-outside-mask; finite content outside the mask is generated and must not matter)',
+               'modes linearly independent on the mask (IsUnit det(BᵀB)); numerically: the property is judged on the real functions for cond(B) <= 1e9 with '
                'tolerance 1e-12 x cond x scale (what a backward-stable least-squares solver delivers); the Lean model (Cramer at Float) is compared for k <= 6, cond <= 1e4',
                'zernike_remove always uses the library-default normalisation (normalize=True; it has no normalize parameter)',
-               'requested modes are pairwise distinct']
+               'requested modes are pairwise distinct (a mode requested twice makes BᵀB singular: outside the theorems; generated and observed only — the pseudo-inverse splits the coefficient between the copies and zernike_remove is unchanged)',
+               'coefficient vectors for zernike_compose are 1-D (a 2-D array is summed along its rows by the code: not generated)']
 
 TOL = 1e-9
 LAYOUTS = ['C', 'F', 'T', 'S']
@@ -185,8 +187,30 @@ def _medium_case(rng):
     for s_ in steps: s_['modes_form'] = 'list'; s_['mask_outside'] = bool(rng.integers(0, 2))
     return {'kind': 'medium-cond', 'shape': [N, N], 'mask': [float(x) for x in seg.ravel()], 'mask_dtype': 'float64', 'steps': steps, 'cond': cond}
 
+def _special_cases(rng, tier):
+    """duplicate mode requests (outside the theorems' hypothesis: what is observed is that a repeated mode changes nothing but the split of
+    its coefficient) and OPDs that are finite on the mask but NaN / inf outside it (KF-C12-nonfinite-outside-mask)"""
+    out = []
+    for q in range({'quick': 2, 'thorough': 30, 'search': 6}[tier]):
+        size = int(rng.integers(10, 19)); m = _mask(rng, ['circle', 'hexagon', 'offcentre', 'irregular'][q % 4], size)
+        nm = int(rng.integers(2, 6))
+        modes = [int(x) for x in rng.choice(np.arange(1, 22), size=nm, replace=False)]
+        L = {'opd': 'C', 'mask': 'C', 'coords': 'C'}
+        def opd(): return [int(x) / 16 for x in rng.integers(-64, 65, m.size)]
+        dup = list(modes); dup.insert(int(rng.integers(0, nm + 1)), modes[int(rng.integers(0, nm))])
+        steps = [{'t': 'dup', 'modes': dup, 'normalize': bool(rng.integers(0, 2)), 'coords': None if q % 2 else _coords(rng), 'opd': opd(), 'layout': dict(L),
+                  'modes_form': 'list', 'mask_outside': bool(rng.integers(0, 2))}]
+        out.append({'kind': 'duplicate-modes', 'shape': list(m.shape), 'mask': [float(x) for x in m.ravel()], 'mask_dtype': 'float64', 'steps': steps,
+                    'cond': _cond(m, modes, steps[0]['coords']), 'oracle_only': True})
+        bad = ['nan', 'inf', '-inf'][q % 3]
+        steps = [{'t': 'fit' if q % 2 else 'rm', 'modes': modes, 'normalize': True, 'coords': None, 'opd': opd(), 'layout': dict(L), 'modes_form': 'list',
+                  'mask_outside': True, 'outside': bad}]
+        out.append({'kind': 'nonfinite-outside', 'shape': list(m.shape), 'mask': [float(x) for x in m.ravel()], 'mask_dtype': 'float64', 'steps': steps,
+                    'cond': _cond(m, modes, None), 'oracle_only': True})
+    return out
+
 def generate(rng, tier):
-    out = _generate(rng, tier)
+    out = _generate(rng, tier) + _special_cases(rng, tier)
     out = [_medium_case(rng) for _ in range({'quick': 4, 'thorough': 60, 'search': 12}[tier])] + out
     # extremes: ill-conditioned full-rank mode sets (a small sample in the quick tier, the large ones only in the deeper tiers)
     ill = {'quick': [(48, 6, 22), (40, 5, 18)], 'thorough': [(48, 6, 22), (64, 8, 22), (96, 10, 22), (40, 5, 16), (56, 6, 21)],
@@ -198,17 +222,17 @@ def generate(rng, tier):
 # the cosine/sine partners (same n and |m|) among Noll 1..36: (2,3), (5,6), (7,8), ... (35,36)
 def _partners(lo, hi): return [(j, j + 1) for j in range(lo, hi) if ref_noll(j)[1] == ref_noll(j + 1)[1] and abs(ref_noll(j)[0]) == abs(ref_noll(j + 1)[0])]
 PARTNERS = _partners(1, 36)
-PARTNERS_HI = _partners(37, 66)            # radial orders 8..10: deeper tiers only
+PARTNERS_HI = _partners(37, 66)            # radial orders 8..10
 
 def _generate(rng, tier):
-    n = {'quick': 30, 'thorough': 520, 'search': 100}[tier]
+    n = {'quick': 30, 'thorough': 460, 'search': 100}[tier]
     kinds = ['circle', 'hexagon', 'segmented', 'offcentre', 'irregular']
     out = []
     ptr = int(rng.integers(0, len(PARTNERS)))
     for k in range(n):
         kind = kinds[k % 5]
         paired = k % 2 == 1
-        high = paired and tier != 'quick' and k % 10 == 7          # Noll 37..66 on the larger masks
+        high = paired and k % 10 == 7          # Noll 37..66 on the larger masks (3 histories of a quick run)
         size = int(rng.integers(18, 23)) if high else int(rng.integers(14, 23)) if paired else int(rng.integers(9, 23))
         m = _mask(rng, kind, size)
         nm = int(rng.integers(1, 7))
@@ -261,12 +285,14 @@ def _generate(rng, tier):
 
 def signature(c):
     return f"{c['kind']} {c['shape']} {vlib.jhash([c['mask'], [(s['t'], s['modes'], s.get('normalize'), s['coords'], s['layout']) for s in c['steps']]])}"
-def nontrivial(c): return len(c['steps']) > 1
+def nontrivial(c): return len(c['steps']) > 1 or c['kind'] in ('duplicate-modes', 'nonfinite-outside')
 def tags(c):
     t = [c['kind'], 'model-compared' if _judged(c) and not c.get('oracle_only') else 'oracle-only', 'mask:' + c['mask_dtype'],
          'cond<=1e4' if c['cond'] <= 1e4 else 'cond<=1e9' if c['cond'] <= 1e9 else 'unjudged(cond>1e9)']
     if max(c['shape']) > 64: t.append('large-array')
     for s in c['steps']:
+        if s.get('outside'): t.append('opd-outside-mask:' + s['outside'])
+        if len(set(s['modes'])) < len(s['modes']): t.append('modes:duplicate')
         t += ['step:' + s['t'], 'opd-layout:' + s['layout']['opd'], 'modes:' + s['modes_form'],
               'coords:supplied' if s['coords'] else 'coords:default']
         if s['coords'] and s['layout']['coords'] != 'C': t.append('coords-layout:' + s['layout']['coords'])
@@ -335,11 +361,33 @@ def impl(c):
             else: kw = {}
             modes = _modes(s); ml = s['modes']
             o = {} if c.get('oracle_only') else {'rho': rho0, 'theta': theta0}
-            if s['t'] in ('fit', 'rm'):
+            if s['t'] in ('fit', 'rm', 'dup'):
                 opd = np.array(s['opd']).reshape(sh)
                 if not s['mask_outside']: opd = opd * (mask64 != 0)
                 o['opd_in'] = _fl(opd)
+                if s.get('outside'):
+                    opd_fin = _layout(opd * (mask64 != 0), L['opd'])                 # the same data with zeros outside the mask
+                    opd = np.where(mask64 != 0, opd, float(s['outside']))
                 opd = _layout(opd, L['opd'])
+            if s.get('outside'):
+                f_ = lentil.zernike_fit if s['t'] == 'fit' else lentil.zernike_remove
+                kw2 = dict(kw, normalize=s['normalize']) if s['t'] == 'fit' else kw
+                got = np.asarray(W(i, f_.__name__, lambda: f_(opd, mask, modes, **kw2), opd=opd, mask=mask, **kw), dtype=float)
+                ref = np.asarray(f_(opd_fin, mask, modes, **kw2), dtype=float)
+                sel = (mask64 != 0) if s['t'] == 'rm' else np.ones(got.shape, bool)      # remove: judged on the masked samples
+                o['nonfinite'] = int((~np.isfinite(got[sel])).sum()); o['n_judged'] = int(sel.sum())
+                o['dev'] = float(np.abs(got[sel] - ref[sel]).max()) if not o['nonfinite'] else None
+                outs.append(o); continue
+            if s['t'] == 'dup':
+                uniq = list(dict.fromkeys(ml))
+                fd = np.asarray(W(i, 'zernike_fit', lambda: lentil.zernike_fit(opd, mask, ml, normalize=s['normalize'], **kw), opd=opd, mask=mask, **kw))
+                fu = np.asarray(lentil.zernike_fit(opd, mask, uniq, normalize=s['normalize'], **kw))
+                o['fit_dup_sum'] = [float(sum(fd[q_] for q_ in range(len(ml)) if ml[q_] == u)) for u in uniq]; o['fit_uniq'] = _fl(fu)
+                o['fit_dup'] = _fl(fd)
+                rd = np.asarray(W(i, 'zernike_remove', lambda: lentil.zernike_remove(opd, mask, ml, **kw), opd=opd, mask=mask, **kw))
+                ru = np.asarray(lentil.zernike_remove(opd, mask, uniq, **kw))
+                o['rem_dev'] = float(np.abs(rd - ru).max())
+                outs.append(o); continue
             if s['t'] == 'basis':
                 bz = W(i, 'zernike_basis', lambda: lentil.zernike_basis(mask, modes, vectorize=s['vectorize'], normalize=s['normalize'], **kw), mask=mask, **kw)
                 o['basis_shape'] = list(np.shape(bz)); o['basis'] = _fl(bz)
@@ -464,6 +512,20 @@ def oracle(c, io):
     for i, (s, o) in enumerate(zip(c['steps'], io['steps'])):
         w = _where(c, i, s)
         if s['t'] == 'basis': continue
+        if s.get('outside'):
+            what = 'zernike_fit' if s['t'] == 'fit' else 'zernike_remove (on the masked samples)'
+            if o['nonfinite']:
+                return (f"{w}: the OPD is finite on every masked sample and {s['outside']} outside the mask: {what} returned {o['nonfinite']} non-finite "
+                        f"values of {o['n_judged']} — samples outside the mask must not matter")
+            if o['dev'] > tol_r * max(1.0, np.abs(o['opd_in']).max()):
+                return f"{w}: {what} changes by {o['dev']:.3e} when the samples outside the mask are set to {s['outside']} — samples outside the mask must not matter"
+            continue
+        if s['t'] == 'dup':
+            sc = max(1.0, np.abs(o['opd_in']).max())
+            if o['rem_dev'] > tol_r * sc: return f"{w}: requesting a mode twice changes zernike_remove by {o['rem_dev']:.3e}"
+            for u, a, b in zip(dict.fromkeys(s['modes']), o['fit_dup_sum'], o['fit_uniq']):
+                if abs(a - b) > tol_r * sc: return f"{w}: requesting a mode twice: the coefficients of mode {u} sum to {a}, requested once it is {b}"
+            continue
         if s['t'] == 'rt':
             sc = max(1.0, np.abs(o['opd_c']).max())
             for m_, a, b in zip(s['modes'], o['fit'], s['coeffs']):
@@ -497,8 +559,23 @@ def shrink(c):
             d = dict(c); d['steps'] = list(c['steps']); d['steps'][i] = dict(s, layout={'opd': 'C', 'mask': 'C', 'coords': 'C'}); yield d
     if c['mask_dtype'] != 'float64': d = dict(c); d['mask_dtype'] = 'float64'; yield d
     for i, s in enumerate(c['steps']):                      # fewer modes in one call (the conditioning bound of the case stays: it only gets better)
-        if len(s['modes']) > 1:
+        if len(s['modes']) > 1 and s['t'] != 'dup':
             for q in range(len(s['modes'])):
                 t = dict(s, modes=s['modes'][:q] + s['modes'][q + 1:])
                 if 'coeffs' in s: t['coeffs'] = s['coeffs'][:q] + s['coeffs'][q + 1:]
                 d = dict(c); d['steps'] = list(c['steps']); d['steps'][i] = t; yield d
+
+# ------------------------------------------------------------------------------------------ known finding
+KF_NONFINITE = 'KF-C12-nonfinite-outside-mask'
+
+def matches_finding(kf, case, msg):
+    if kf.get('id') != KF_NONFINITE: return False
+    return (case.get('kind') == 'nonfinite-outside' and all(s.get('outside') for s in case['steps'])
+            and 'non-finite' in msg and 'samples outside the mask must not matter' in msg)
+
+def replay_finding(kf):
+    if kf.get('id') != KF_NONFINITE: return False
+    c = kf['witness']
+    io = impl(c)
+    msg = oracle(c, io)
+    return bool(msg and matches_finding(kf, c, msg))
